@@ -17,7 +17,14 @@ Tie 2 (component level, exact): props/C11/h_fstree.c drives fstree_add_generic /
     explicit entry sequences in arbitrary orders; the model (fs_add + post_process) must print the same dump.
 Search oracle: the property itself on the implementation — sha256 of the image the real gensquashfs writes
     for the same directory under several injected readdir orders (and the same for the fstree dump of
-    permuted add sequences at component level).
+    permuted add sequences at component level).  Trees: random ones and `shape_cases` — one family of tree
+    shapes per "the order cannot matter here" shortcut an enumeration layer might take (directories holding
+    only sub directories / only non-directories / one / two entries / only names of multiply-linked files,
+    link groups spread over siblings, parent and child, depths, names sorting against their directories,
+    bytes >= 0x80, case-only and late differences, growth steps of the name array), each packed with default
+    options, -k, -o and glob lines.  Orders: host, sorted, reverse (both relative orders of every pair of
+    siblings), a rotation of each, seeded shuffles.  `sensitivity` measures with the model of the non-sorting
+    iterator which directories of the shaped trees would betray a skipped sort (coverage.distribution).
 """
 import base64
 import hashlib
@@ -27,6 +34,7 @@ import random
 import shutil
 import stat
 import subprocess
+import time
 from concurrent.futures import ThreadPoolExecutor
 
 from vlib import build as B
@@ -195,6 +203,365 @@ def hardlink_tree(rnd):
             else:
                 spec.append(dict(p=p, k="h", of=first))
     return spec
+
+
+# --------------------------------------------------------------------------------------------
+# shaped trees: one family per "the order cannot matter here" shortcut an enumeration layer might take
+# --------------------------------------------------------------------------------------------
+
+# name palettes, each listed in strcmp (unsigned byte) order.  "+p" "-d" sort before "." and "..", "..x" ".h"
+# between/after them; the third palette has bytes >= 0x80 (valid UTF-8 and raw 0x80 / 0xff bytes, carried as
+# surrogate escapes); the fourth has names that are prefixes of each other; in the fifth the names differ only in
+# case, in the sixth only after a long common prefix (a comparator that is not a total order on names leaves such
+# names in the order readdir returned them).
+PALETTES = [
+    ["a", "b", "c", "d", "e", "f", "m", "n", "x", "y", "z"],
+    ["+p", "-d", "..x", ".h", "0", "10", "9", "A", "B", "_x", "a", "a b", "~t"],
+    ["Z", "a", "z", "\udc80x", "é", "ü", "\udcfe", "\udcff"],
+    ["a", "a!", "a,b", "a-b", "a.b", "a0", "aa", "ab", "abc", "b", "b.txt"],
+    ["AB", "ABC", "Ab", "AbC", "aB", "aBc", "ab", "abC", "abc"],
+    ["common-prefix-0000000000000000" + x for x in ["", "0", "1", "A", "a", "a.b", "b", "z", "é"]],
+]
+assert all(p == sorted(p, key=lambda n: n.encode("utf-8", "surrogateescape")) for p in PALETTES)
+
+
+def _bkey(name):
+    return name.encode("utf-8", "surrogateescape")
+
+
+class TreeBuilder:
+    """Spec builder: parents are created on demand, every regular file gets contents of its own
+    (no two files deduplicate, so the packing order of the files is visible in the data area)."""
+
+    def __init__(self, rnd):
+        self.rnd = rnd
+        self.spec = []
+        self.used = set()
+        self.nfile = 0
+
+    def _attrs(self):
+        return dict(perm=0o644, uid=0, gid=0, mtime=1577836800)
+
+    def d(self, p):
+        if p == "" or p in self.used:
+            return p
+        if "/" in p:
+            self.d(p.rsplit("/", 1)[0])
+        self.used.add(p)
+        self.spec.append(dict(p=p, k="d", perm=0o755, uid=0, gid=0, mtime=1577836800))
+        return p
+
+    def _new(self, p):
+        assert p not in self.used, p
+        if "/" in p:
+            self.d(p.rsplit("/", 1)[0])
+        self.used.add(p)
+
+    def f(self, p):
+        self._new(p)
+        self.nfile += 1
+        data = (b"%04d:" % self.nfile) + bytes([32 + (self.nfile * 7) % 90]) * self.rnd.randint(1, 2500)
+        self.spec.append(dict(p=p, k="f", data=base64.b64encode(data).decode(), **self._attrs()))
+        return p
+
+    def l(self, p):
+        self._new(p)
+        self.spec.append(dict(p=p, k="l", tgt="some/where", **self._attrs()))
+        return p
+
+    def fifo(self, p):
+        self._new(p)
+        self.spec.append(dict(p=p, k="p", **self._attrs()))
+        return p
+
+    def h(self, p, of):
+        self._new(p)
+        self.spec.append(dict(p=p, k="h", of=of))
+        return p
+
+
+def _join(d, n):
+    return (d + "/" + n) if d else n
+
+
+def _take(rnd, pal, k):
+    """k names of the palette, in strcmp order"""
+    return sorted(rnd.sample(pal, k), key=_bkey)
+
+
+def shape_dirs_only(rnd, pal):
+    """A directory that holds nothing but sub directories (the root itself, or `pool` below a mixed root);
+    a file with one name in each of two or three of them, other files in every sub directory."""
+    t = TreeBuilder(rnd)
+    parent = rnd.choice(["", "pool"])
+    k = rnd.randint(2, 5)
+    ds = _take(rnd, pal, k)
+    i, j = sorted(rnd.sample(range(k), 2))
+    fn = _take(rnd, pal, 3)
+    deep = rnd.random() < 0.3      # the names live one level further down, below single-entry directories
+    sub = lambda d: _join(_join(parent, d), "only") if deep else _join(parent, d)
+    first = t.f(_join(sub(ds[i]), fn[1]))
+    t.h(_join(sub(ds[j]), rnd.choice(fn)), first)
+    if k > 2 and rnd.random() < 0.5:
+        o = rnd.choice([x for x in range(k) if x not in (i, j)])
+        t.h(_join(sub(ds[o]), fn[1]), first)
+    for x, d in enumerate(ds):
+        if deep and x in (i, j):
+            continue
+        for n in rnd.sample(fn, rnd.randint(1, 2)):
+            q = _join(_join(parent, d), n)
+            if q not in t.used:
+                t.f(q)
+    if deep:
+        q = _join(sub(ds[i]), fn[2])
+        if q not in t.used:
+            t.f(q)
+    if parent:
+        t.f("README")
+    return t.spec
+
+
+def shape_nondirs_only(rnd, pal):
+    """A flat directory (no sub directory in it): two multiply-linked files whose names nest
+    (p q r s with p = s and q = r), other files, symlinks and a fifo around them."""
+    t = TreeBuilder(rnd)
+    parent = rnd.choice(["", "flat", "flat"])
+    n = rnd.randint(4, min(8, len(pal)))
+    ns = _take(rnd, pal, n)
+    a, b, c, d = sorted(rnd.sample(range(n), 4))
+    A = t.f(_join(parent, ns[a]))
+    B = t.f(_join(parent, ns[b])) if rnd.random() < 0.8 else t.l(_join(parent, ns[b]))
+    t.h(_join(parent, ns[c]), B)
+    t.h(_join(parent, ns[d]), A)
+    for x in range(n):
+        if x not in (a, b, c, d):
+            r = rnd.random()
+            (t.f if r < 0.6 else t.l if r < 0.85 else t.fifo)(_join(parent, ns[x]))
+    if parent:
+        t.f("zz-top") if rnd.random() < 0.5 else t.f("0-top")
+    return t.spec
+
+
+def shape_single_entry(rnd, pal):
+    """Chains of directories with exactly one entry each; the leaves of two chains are one file."""
+    t = TreeBuilder(rnd)
+    ds = _take(rnd, pal, 3)
+    fn = _take(rnd, pal, 2)
+    depth = rnd.randint(1, 3)
+    chain = lambda d: "/".join([d] + ["only"] * (depth - 1))
+    lo, mid, hi = ds
+    first = t.f(_join(chain(lo), fn[rnd.randrange(2)]))
+    t.f(_join(mid, fn[0]))
+    t.h(_join(chain(hi), fn[rnd.randrange(2)]), first)
+    if rnd.random() < 0.5:
+        t.f("top.txt")
+    return t.spec
+
+
+def shape_all_links(rnd, pal):
+    """Directories all of whose entries have a link count above one: either two nested groups in one
+    directory, or every entry of a directory is a name of the same file (which has one more name elsewhere)."""
+    t = TreeBuilder(rnd)
+    ns = _take(rnd, pal, 4)
+    if rnd.random() < 0.5:
+        A = t.f(_join("grp", ns[0]))
+        B = t.f(_join("grp", ns[1]))
+        t.h(_join("grp", ns[2]), B)
+        t.h(_join("grp", ns[3]), A)
+        t.f("top.txt")
+    else:
+        ds = _take(rnd, pal, 3)
+        x, y, z = rnd.sample(ds, 3)
+        A = t.f(_join(x, ns[0]))
+        for n in ns[1:rnd.randint(2, 4)]:
+            t.h(_join(x, n), A)
+        t.h(_join(y, ns[1]), A)
+        t.f(_join(y, ns[2]))
+        t.f(_join(z, ns[0]))
+        if rnd.random() < 0.5:
+            t.f("top.txt")
+    return t.spec
+
+
+def shape_siblings_mixed(rnd, pal):
+    """Names of one file spread over sibling sub directories of a parent that also holds non-directories."""
+    t = TreeBuilder(rnd)
+    parent = rnd.choice(["", "pool"])
+    k = rnd.randint(2, 4)
+    ds = _take(rnd, pal, k + 2)
+    rnd.shuffle(ds)
+    dirs, plain = sorted(ds[:k], key=_bkey), ds[k:]
+    fn = _take(rnd, pal, 3)
+    first = t.f(_join(_join(parent, dirs[0]), fn[rnd.randrange(3)]))
+    for d in dirs[1:]:
+        t.h(_join(_join(parent, d), fn[rnd.randrange(3)]), first)
+    for d in dirs:
+        for n in rnd.sample(fn, 2):
+            q = _join(_join(parent, d), n)
+            if q not in t.used:
+                t.f(q)
+    t.f(_join(parent, plain[0]))
+    (t.l if rnd.random() < 0.5 else t.f)(_join(parent, plain[1]))
+    if parent:
+        t.f("README")
+    return t.spec
+
+
+def shape_parent_child(rnd, pal):
+    """A file with one name in a directory and one in a sub directory of it; the file name sorts
+    before or after the sub directory."""
+    t = TreeBuilder(rnd)
+    parent = rnd.choice(["", "p"])
+    ns = _take(rnd, pal, 4)
+    s = ns[rnd.choice([0, 1, 2, 3])]
+    rest = [n for n in ns if n != s]
+    x = rnd.choice(rest)
+    first = t.f(_join(parent, x))
+    t.h(_join(_join(parent, s), rnd.choice(ns)), first)
+    for n in rnd.sample(ns, 2):
+        q = _join(_join(parent, s), n)
+        if q not in t.used:
+            t.f(q)
+    for n in rest:
+        q = _join(parent, n)
+        if q not in t.used and rnd.random() < 0.7:
+            t.f(q)
+    if parent:
+        t.f("README")
+    return t.spec
+
+
+def shape_depths(rnd, pal):
+    """Names of one file at depths 1, 2 and 4 (directories on the way hold one or two entries)."""
+    t = TreeBuilder(rnd)
+    ns = _take(rnd, pal, 4)
+    a, b, c, top = rnd.sample(ns, 4)
+    paths = [top, _join(a, rnd.choice(ns)), "/".join([a, b, c, rnd.choice(ns)])]
+    rnd.shuffle(paths)
+    first = None
+    for q in paths:
+        if q in t.used:
+            continue
+        if first is None:
+            first = t.f(q)
+        else:
+            t.h(q, first)
+    for q in [_join(a, ns[0]), "/".join([a, b, ns[1]]), "/".join([a, b, c, ns[2]]), ns[3], ns[0]]:
+        if q not in t.used and rnd.random() < 0.7:
+            t.f(q)
+    return t.spec
+
+
+def shape_cross_sort(rnd, pal):
+    """Two or three directories d0 < d1 (< d2); the names of the multiply-linked file inside them sort the
+    other way round, or are the same base name, or equal the name of one of the directories."""
+    t = TreeBuilder(rnd)
+    parent = rnd.choice(["", "", "x"])
+    k = rnd.randint(2, 3)
+    ds = _take(rnd, pal, k)
+    fn = _take(rnd, pal, k)
+    how = rnd.choice(["reverse", "same", "dirname"])
+    names = {"reverse": list(reversed(fn)), "same": [fn[0]] * k, "dirname": list(reversed(ds))}[how]
+    first = None
+    for d, n in zip(ds, names):
+        q = _join(_join(parent, d), n)
+        first = t.f(q) if first is None else (t.h(q, first) and first)
+    for d in ds:
+        for n in rnd.sample(pal, 2):
+            q = _join(_join(parent, d), n)
+            if q not in t.used:
+                t.f(q)
+    if rnd.random() < 0.5:
+        q = _join(parent, rnd.choice(pal))
+        if q not in t.used:
+            t.f(q)
+    if parent:
+        t.f("README")
+    return t.spec
+
+
+def shape_two_entries(rnd, pal):
+    """Every directory holds exactly two entries."""
+    t = TreeBuilder(rnd)
+    ns = _take(rnd, pal, 4)
+    if rnd.random() < 0.5:
+        d0, d1 = ns[0], ns[3]
+        first = t.f(_join(d0, ns[1]))
+        t.f(_join(d0, ns[2]))
+        t.h(_join(d1, rnd.choice([ns[0], ns[2]])), first)
+        t.f(_join(d1, ns[1]))
+    else:
+        x, s = rnd.sample(ns, 2)
+        first = t.f(x)
+        t.h(_join(s, ns[1]), first)
+        t.f(_join(s, ns[2])) if _join(s, ns[2]) not in t.used else None
+    return t.spec
+
+
+def shape_boundary_dirs(cnt):
+    """`pool` holds cnt sub directories and nothing else (cnt + 2 raw entries: a growth step of the name array of
+    the native iterator); one file has a name in the first, a middle and the last of them."""
+    def go(rnd, pal):
+        t = TreeBuilder(rnd)
+        first = t.f("pool/d%03d/f" % 0)
+        for j in range(1, cnt):
+            t.f("pool/d%03d/f" % j)
+        t.h("pool/d%03d/g" % (cnt // 2), first)
+        t.h("pool/d%03d/e" % (cnt - 1), first)
+        t.f("z")
+        return t.spec
+    return go
+
+
+SHAPES = [("do", shape_dirs_only), ("nd", shape_nondirs_only), ("se", shape_single_entry), ("al", shape_all_links),
+          ("sm", shape_siblings_mixed), ("pc", shape_parent_child), ("dp", shape_depths), ("cs", shape_cross_sort),
+          ("te", shape_two_entries)]
+
+# ways to pack that keep the hard link filter on
+SHAPE_CONFIGS = ["default", "k", "o", "glob"]
+
+
+def shape_packfile(rnd, spec):
+    # top-level directories that hold every name of every multiply-linked file (a sub directory argument of glob
+    # must not cut a link group in two: the target of the link would be missing in the image)
+    linked = [e["p"] for e in spec if e["k"] == "h"] + [e["of"] for e in spec if e["k"] == "h"]
+    top = sorted(set(q.split("/")[0] for q in linked if "/" in q))
+    top = [d for d in top if all(q.startswith(d + "/") for q in linked) and all(ord(c) < 128 and c != " " for c in d)]
+    r = rnd.random()
+    if r < 0.35:
+        return [["glob", "/", "*", "*", "*"]]
+    if r < 0.55:
+        return [["dir", "/usr", "0755", "0", "0"], ["glob", "/", "0644", "5", "6", "-keeptime"]]
+    if r < 0.75:
+        return [["glob", "/", "*", "*", "*", "-type", "f", "-type", "d"]]
+    if r < 0.9 and top:
+        return [["glob", "/", "*", "*", "*", "--", rnd.choice(top)], ["slink", "/lnk", "0777", "0", "0", "tgt"]]
+    return [["glob", "/", "*", "*", "*", "-name", "*"]]
+
+
+def shape_cases(ctx, rnd):
+    """Every shape x every way of packing that keeps hard link detection on, palettes rotating; the thorough
+    tier repeats that with more parameter draws."""
+    reps = 1 if ctx.tier == "quick" else 6
+    bcounts = [14, 30] if ctx.tier == "quick" else [2, 6, 13, 14, 15, 29, 30, 31, 62, 126]
+    shapes = SHAPES + [("bd%d" % c, shape_boundary_dirs(c)) for c in bcounts]
+    cases = []
+    for rep in range(reps):
+        for si, (tag, fn) in enumerate(shapes):
+            cfgs = SHAPE_CONFIGS if not tag.startswith("bd") else [SHAPE_CONFIGS[(si + rep) % 4]]
+            for cfg in cfgs:
+                # every (way of packing, palette) pair comes up within one repetition, every (shape, palette) pair within six
+                pal = PALETTES[(si + SHAPE_CONFIGS.index(cfg) + rep) % len(PALETTES)]
+                spec = fn(rnd, pal)
+                cid = "s%s%s%d" % (tag, cfg[0], rep)
+                dflt = dict(uid=0, gid=0, mtime=0, mode=0o755)
+                if cfg == "glob":
+                    c = Case(cid, spec, "file", [], dflt, packfile=shape_packfile(rnd, spec))
+                else:
+                    c = Case(cid, spec, "dir", {"default": [], "k": ["-k"], "o": ["-o"]}[cfg], dflt)
+                c.shaped = True
+                cases.append(c)
+    return cases
 
 
 def materialize(spec, root):
@@ -420,14 +787,17 @@ class Case:
         self.packfile = packfile
         self.mount = mount        # relative path of a directory that gets a tmpfs mounted on it
         self.root = None
+        self.shaped = False       # from shape_cases: gets the per-directory sensitivity analysis
 
     def to_json(self):
         return dict(cid=self.cid, spec=self.spec, kind=self.kind, opts=self.opts, dflt=self.dflt,
-                    packfile=self.packfile, mount=self.mount)
+                    packfile=self.packfile, mount=self.mount, shaped=self.shaped)
 
     @staticmethod
     def from_json(j):
-        return Case(j["cid"], j["spec"], j["kind"], j["opts"], j["dflt"], j.get("packfile"), j.get("mount"))
+        c = Case(j["cid"], j["spec"], j["kind"], j["opts"], j["dflt"], j.get("packfile"), j.get("mount"))
+        c.shaped = bool(j.get("shaped"))
+        return c
 
     def hl_active(self):
         if self.kind == "dir":
@@ -460,7 +830,8 @@ def prepare_case(case, scratch):
             os.utime(os.path.join(mp, "sub"), (1, 1))
             os.utime(mp, (1, 1))
     if case.kind == "file":
-        open(os.path.join(d, "pack.txt"), "w").write(packfile_text(case.packfile))
+        with open(os.path.join(d, "pack.txt"), "w", encoding="utf-8", errors="surrogateescape") as f:
+            f.write(packfile_text(case.packfile))
     return d
 
 
@@ -540,7 +911,8 @@ def tie_scan_one(tools, case, mode, workdir):
     dlines = open(dump).read().split("\n") if os.path.exists(dump) else []
     order = parse_shim_log(log)
     impl = [l for l in dlines if l and not l.startswith("B ")]
-    res = dict(mode=mode, rc=rc, stderr=err[-300:], impl=impl, ok=True, kind="", entries=sum(1 for l in impl if l[0] == "S"))
+    res = dict(mode=mode, rc=rc, stderr=err[-300:], impl=impl, ok=True, kind="", entries=sum(1 for l in impl if l[0] == "S"),
+               _dlines=dlines, _order=order)
     if rc not in (0, 1):
         res.update(ok=False, kind="crash", detail="harness died with status %d: %s" % (rc, err[-300:]))
         return res
@@ -570,6 +942,76 @@ def tie_scan_one(tools, case, mode, workdir):
         if not ti["ok"]:
             res.update(ok=False, kind="image", detail=ti["detail"])
     return res
+
+
+# --------------------------------------------------------------------------------------------
+# is the generator aimed right?  per-directory order sensitivity of the shaped trees (model only)
+# --------------------------------------------------------------------------------------------
+
+def dir_tags(path):
+    """the classes of 'order cannot matter here' shortcuts the directory `path` (bytes) would fall under"""
+    sts = [os.lstat(os.path.join(path, n)) for n in os.listdir(path)]
+    nd = sum(1 for st in sts if stat.S_ISDIR(st.st_mode))
+    tags = []
+    if len(sts) <= 1:
+        return ["at-most-one-entry"]
+    if len(sts) == 2:
+        tags.append("two-entries")
+    if nd == len(sts):
+        tags.append("dirs-only")
+    elif nd == 0:
+        tags.append("nondirs-only")
+        if all(st.st_nlink > 1 for st in sts):
+            tags.append("all-entries-multilinked")
+    else:
+        tags.append("dirs-and-nondirs")
+    if any(b >= 0x80 for n in os.listdir(path) for b in n):
+        tags.append("names-with-high-bytes")
+    return tags
+
+
+def sensitivity(tools, case, dlines, order):
+    """For every directory D the scan opened: would an iterator that sorts every directory except D (D handed out
+    in the logged order instead) build another fstree / inode numbering / file list?  Computed with the model of the
+    non-sorting iterator fed with sorted listings everywhere but in D.  Returns [(tags, sensitive)]: a partial
+    'skip the sort when ...' shortcut is visible to the sha256 oracle on this tree under this order iff some
+    directory it applies to is sensitive."""
+    root = os.path.realpath(os.fsencode(case.root))
+    keys = [d for d in order if d == root or d.startswith(root + b"/")]
+    texts = []
+    for i, d in enumerate([None] + keys):
+        t, complete = model_input(case, dlines, {} if d is None else {d: order[d]}, 0)
+        if not complete:
+            return []
+        texts.append("CASE v%d\n" % i + t.split("\n", 1)[1])
+    r = subprocess.run([tools["drv"]], input="".join(texts).encode(), stdout=subprocess.PIPE, stderr=subprocess.PIPE)
+    if r.returncode != 0:
+        raise RuntimeError("model driver failed: " + r.stderr.decode()[-500:])
+    outs = split_cases(r.stdout.decode().split("\n"))
+    def keep(ls):
+        """what of the dump reaches the image: type, attributes and inode number of every path (a hard link counts with the
+        number of its target: in the image it is a directory entry like the primary name), the file list as inode numbers"""
+        num, nodes, out = {}, [], []
+        for l in ls:
+            w = l.split(" ")
+            if w[0] == "N" and len(w) >= 12:
+                nodes.append(w)
+                if w[10] != "1":
+                    num[w[1]] = w[8]
+            elif w[0] in ("R", "X"):
+                out.append(l)
+        for w in nodes:
+            if w[10] == "1":
+                tgt = w[11].split(">")[-1]
+                tn = next((x for x in nodes if x[1] == tgt), None)
+                out.append(" ".join(["N", w[1]] + (tn[2:8] if tn else ["?"]) + [num.get(tgt, "?")]))
+            else:
+                out.append(" ".join(["N"] + w[1:9] + (w[11:] if w[2] != "f" else [])))
+        out += ["F " + num.get(l[2:], "?") for l in ls if l.startswith("F ")]
+        return out
+
+    base = keep(outs.get("v0", []))
+    return [(dir_tags(d), keep(outs.get("v%d" % (i + 1), [])) != base) for i, d in enumerate(keys)]
 
 
 # --------------------------------------------------------------------------------------------
@@ -668,6 +1110,7 @@ def tie_image_one(tools, text, img_path):
 def order_oracle(tools, case, modes, workdir):
     """sha256 of the image (and exit status) of the real gensquashfs under each readdir order."""
     out = {}
+    listed = {}
     for m in modes:
         img = os.path.join(workdir, "o.%s.sqfs" % m.replace(":", "_"))
         if os.path.exists(img):
@@ -676,14 +1119,19 @@ def order_oracle(tools, case, modes, workdir):
         if os.path.exists(log):
             os.unlink(log)
         rc, err = run_packer(tools["gensquashfs"], tools["shim"], m, case.args(img), workdir, log=log)
-        if rc == 0 and not parse_shim_log(log):
+        seen = parse_shim_log(log)
+        root = os.path.realpath(os.fsencode(case.root))
+        listed[m] = {(d[len(root) + 1:].decode("utf-8", "surrogateescape") or "."):
+                     [n.decode("utf-8", "surrogateescape") for n in names]
+                     for d, names in seen.items() if d == root or d.startswith(root + b"/")}
+        if rc == 0 and not seen:
             raise RuntimeError("readdir shim saw no directory in a successful gensquashfs run (mode %s): the tool no longer "
                                "enumerates directories through readdir, the injected orders are not in effect" % m)
         out[m] = (rc, _sha(img) if rc == 0 and os.path.exists(img) else None)
     groups = {}
     for m, v in out.items():
         groups.setdefault(v, []).append(m)
-    return out, groups
+    return out, groups, listed
 
 
 def describe_difference(tools, case, ma, mb, workdir):
@@ -907,12 +1355,20 @@ def gen_cases(ctx):
         d = dict(uid=rnd.choice(UIDS), gid=0, mtime=rnd.choice([0, 7]), mode=0o755)
         opts = ["-d", "uid=%d,gid=0,mtime=%d,mode=0755" % (d["uid"], d["mtime"])]
         cases.append(Case("p%d" % i, spec, "file", opts, d, packfile=gen_packfile(rnd, spec)))
+    # tree SHAPES aimed at partial "no need to sort here" shortcuts (own random stream: the cases above keep theirs)
+    cases += shape_cases(ctx, random.Random(ctx.seed * 7727 + 3))
     return cases
 
 
 def modes_for(ctx, case, rnd, k):
-    ms = ["none", "sorted", "reverse"] + ["seed:%d" % rnd.randrange(1, 10 ** 6) for _ in range(max(0, k - 3))]
-    return ms
+    """Readdir orders of one case, chosen deliberately: `sorted` and `reverse` together show both relative orders of
+    every pair of sibling entries; a rotation of each puts other entries first and last and moves "." / ".."
+    through the listing; the host order and seeded shuffles on top."""
+    r1, r2 = rnd.randint(1, 4), rnd.randint(1, 4)
+    ms = ["none", "sorted", "reverse", "seed:%d" % rnd.randrange(1, 10 ** 6), "rot:%d" % r1, "rrot:%d" % r2]
+    if k > 6:
+        ms += ["rot:%d" % (r1 + 2), "rrot:%d" % (r2 + 3)] + ["seed:%d" % rnd.randrange(1, 10 ** 6) for _ in range(k - 8)]
+    return ms[:max(k, 3)]
 
 
 def check_case(ctx, tools, case, tie_modes, oracle_modes):
@@ -924,11 +1380,15 @@ def check_case(ctx, tools, case, tie_modes, oracle_modes):
             for m in tie_modes:
                 out["ties"].append(tie_scan_one(tools, case, m, wd))
             broken = any(not t["ok"] for t in out["ties"])
+            if case.shaped and out["ties"] and not out["ties"][0].get("failed_run") and out["ties"][0]["rc"] == 0:
+                out["sens"] = sensitivity(tools, case, out["ties"][0]["_dlines"], out["ties"][0]["_order"])
             modes = list(oracle_modes)
             if broken:
-                modes = list(dict.fromkeys(modes + ["none", "sorted", "reverse"] + ["seed:%d" % s for s in range(1, 13)]))
-            res, groups = order_oracle(tools, case, modes, wd)
+                modes = list(dict.fromkeys(modes + ["none", "sorted", "reverse", "rot:1", "rot:2", "rot:3", "rrot:1", "rrot:2"] +
+                                           ["seed:%d" % s for s in range(1, 13)]))
+            res, groups, listed = order_oracle(tools, case, modes, wd)
             out["oracle"] = res
+            out["listed"] = listed
             out["groups"] = groups
             if len(groups) > 1:
                 gs = sorted(groups.items(), key=lambda kv: -len(kv[1]))
@@ -951,9 +1411,15 @@ def report_case(ctx, r, stats):
         return
     groups = r["groups"] or {}
     concrete = False
+    for tags, sensitive in r.get("sens") or []:
+        for t in tags:
+            e = stats["sens"].setdefault(t, [0, 0])
+            e[0] += 1
+            e[1] += 1 if sensitive else 0
     if len(groups) > 1:
         concrete = True
         stats["oracle_bad"] += 1
+        stats["oracle_bad_shaped"] = stats.get("oracle_bad_shaped", 0) + (1 if case.shaped else 0)
         gs = sorted(groups.items(), key=lambda kv: -len(kv[1]))
         (va, ma), (vb, mb) = gs[0], gs[1]
         # witnesses: prefer the injected orders that do not depend on the host file system
@@ -971,6 +1437,7 @@ def report_case(ctx, r, stats):
         if sig not in stats["reported"]:
             stats["reported"].add(sig)
             ctx.violation(sig, what, dict(case=case.to_json(), modes=[ma[0], mb[0]],
+                                          readdir_orders={m: (r.get("listed") or {}).get(m) for m in (ma[0], mb[0])},
                                           result={m: list(v) for m, v in (r["oracle"] or {}).items()},
                                           packfile_text=packfile_text(case.packfile) if case.packfile else None))
     for t in r["ties"]:
@@ -1020,7 +1487,7 @@ def run(ctx):
         "for every two enumeration orders; host file contents, xattrs and compressor options are parameters shared by both runs; "
         "the tie compares the metadata tables (1b), the data area and the super block are covered by the sha256 search oracle",
     ]
-    stats = dict(tie_runs=0, tie_bad=0, oracle_bad=0, entries=0, failed_runs=0, reported=set())
+    stats = dict(tie_runs=0, tie_bad=0, oracle_bad=0, entries=0, failed_runs=0, reported=set(), sens={})
     rnd = random.Random(ctx.seed * 31 + 5)
 
     if ctx.replay:
@@ -1049,18 +1516,31 @@ def run(ctx):
     jobs = []
     for c in cases:
         ms = modes_for(ctx, c, rnd, k)
-        tie_modes = [ms[2], ms[3]] if ctx.tier == "quick" else [ms[0], ms[2], ms[3], ms[4]]
+        # ms[2] = reverse (first: the sensitivity analysis of the shaped trees uses it), ms[3] a shuffle, ms[4] a rotation
+        if ctx.tier == "quick":
+            tie_modes = [ms[2], ms[4]] if c.shaped else [ms[2], ms[3]]
+        else:
+            tie_modes = [ms[2], ms[0], ms[3], ms[4]]
         jobs.append((c, tie_modes, ms))
     # the mount cases must not run concurrently with the removal of other scratch dirs: they are self-contained
+    t_tool = time.time()
     with ThreadPoolExecutor(max_workers=12) as ex:
         results = list(ex.map(lambda j: check_case(ctx, tools, j[0], j[1], j[2]), jobs))
+    t_tool = time.time() - t_tool
     for r in results:
         report_case(ctx, r, stats)
+    n_shaped = sum(1 for c in cases if c.shaped)
+    ctx.log("shaped trees: %d cases (%s) x (default, -k, -o, glob line); directories by shortcut class under the reversed "
+            "readdir order, sensitive = leaving only that directory unsorted changes the type, attributes or inode number of a path or the packing "
+            "order of the files: %s; "
+            "tool level took %.1fs" % (n_shaped, " ".join(t for t, _ in SHAPES) + " bd*",
+                                       ", ".join("%s %d/%d" % (t, v[1], v[0]) for t, v in sorted(stats["sens"].items())), t_tool))
     n_links = sum(1 for c in cases if has_multilink(c.spec))
     n_links_hl = sum(1 for c in cases if has_multilink(c.spec) and c.hl_active())
     ctx.log("tool level: %d cases (%d with multiply-linked files, %d of them with hard link detection on), %d tie runs "
-            "(%d broken, %d of failing packer runs), %d entries streamed, oracle: %d cases with order-dependent images"
-            % (len(cases), n_links, n_links_hl, stats["tie_runs"], stats["tie_bad"], stats["failed_runs"], stats["entries"], stats["oracle_bad"]))
+            "(%d broken, %d of failing packer runs), %d entries streamed, oracle: %d cases with order-dependent images (%d of them shaped trees)"
+            % (len(cases), n_links, n_links_hl, stats["tie_runs"], stats["tie_bad"], stats["failed_runs"], stats["entries"], stats["oracle_bad"],
+               stats.get("oracle_bad_shaped", 0)))
     ctx.log("image level (tie 1b): %d images decoded, %d compared byte for byte (%d table bytes), %d with multi-block tables skipped"
             % (stats.get("image_runs", 0), stats.get("image_exact", 0), stats.get("image_bytes", 0),
                stats.get("image_runs", 0) - stats.get("image_exact", 0)))
@@ -1075,19 +1555,25 @@ def run(ctx):
     ctx.coverage["rule"] = (
         "seed %d: %d generated directory trees (random names chosen to collide in sort order, files/dirs/symlinks/fifos/sockets/"
         "device nodes, odd owners and mtimes incl. <0 and >2^32; %d trees with hard link groups spread over directories; one tree with "
-        "a tmpfs mount point) x gensquashfs configurations (--pack-dir with random -k -o -H --all-root -u -g -e -T -d -b; pack files "
+        "a tmpfs mount point; %d shaped trees: directories holding only sub directories / only non-directories / one entry / two "
+        "entries / only names of multiply-linked files, names of one file spread over sibling directories, parent and child, "
+        "different depths, names sorting against their directories, bytes >= 0x80, sub-directory counts on the growth steps of "
+        "the name array, each packed with default options, -k, -o and a glob line) x gensquashfs configurations (--pack-dir with random -k -o -H --all-root -u -g -e -T -d -b; pack files "
         "with glob lines using -type -name -path -keeptime -nonrecursive -xdev -nohardlinks and sub directory arguments, mixed with "
         "dir/file/slink lines); tie: %d readdir orders per case, model fed with the logged order; oracle: %d readdir orders per case "
-        "(host order, sorted, reverse, seeded shuffles); component level: %d add sequences (2 random orders of each entry set, 40%% 'wild' "
+        "(host order, sorted, reverse - together both relative orders of every pair of siblings -, a rotation of each, seeded "
+        "shuffles); component level: %d add sequences (2 random orders of each entry set, 40%% 'wild' "
         "with duplicate paths, unclean/dangling/chained hard link targets, out-of-range mtimes). non-trivial = packer succeeded on a "
         "tree with >= 3 entries / component dump with > 4 lines"
-        % (ctx.seed, len(cases), n_links, len(jobs[0][1]), k, cstats["cases"]))
+        % (ctx.seed, len(cases), n_links, n_shaped, len(jobs[0][1]), k, cstats["cases"]))
     ctx.coverage["distribution"] = dict(cases=len(cases), trees_with_multilinks=n_links, multilink_and_detection_on=n_links_hl,
                                         pack_dir=sum(1 for c in cases if c.kind == "dir"),
                                         pack_file=sum(1 for c in cases if c.kind == "file"),
                                         failing_packer_runs=stats["failed_runs"], entries_streamed=stats["entries"],
                                         image_tables_compared_exactly=stats.get("image_exact", 0),
                                         image_table_bytes=stats.get("image_bytes", 0),
+                                        shaped_trees=n_shaped,
+                                        shaped_directories_sensitive_of_total={t: "%d/%d" % (v[1], v[0]) for t, v in sorted(stats["sens"].items())},
                                         component=cstats)
     ctx.coverage["search_oracle"] = dict(images_hashed=len(cases) * k, order_dependent_cases=stats["oracle_bad"])
     smp = []
